@@ -74,6 +74,7 @@ type DemuxRun struct {
 	Panic      string
 	PanicClass string
 	PostEOFBad string // a call after ErrNoMorePackets returned something else
+	WrappedEOF string // a call returned an error that wraps ErrNoMorePackets instead of the sentinel itself
 	Tap        *mon.RTap
 	Dmx        *astits.Demuxer
 	PacketSize int // framing used (set by callers that need offsets; 0 = 188)
@@ -199,7 +200,7 @@ func RunDemux(input []byte, cfg DemuxCfg) *DemuxRun {
 			return run
 		}
 		if run.EOFAt >= 0 {
-			if !errors.Is(it.Err, astits.ErrNoMorePackets) || it.Data != nil || it.Packet != nil {
+			if it.Err != astits.ErrNoMorePackets || it.Data != nil || it.Packet != nil {
 				if run.PostEOFBad == "" {
 					run.PostEOFBad = fmt.Sprintf("call %d after ErrNoMorePackets returned data=%v packet=%v err=%v", it.Call, it.Data != nil, it.Packet != nil, it.Err)
 				}
@@ -210,7 +211,12 @@ func RunDemux(input []byte, cfg DemuxCfg) *DemuxRun {
 			}
 			continue
 		}
-		if it.Err != nil && errors.Is(it.Err, astits.ErrNoMorePackets) && it.Data == nil && it.Packet == nil {
+		// the end of the stream is the sentinel ITSELF (callers compare with ==, as the README does): an error that merely wraps it
+		// is an error like any other, and is remembered
+		if it.Err != nil && it.Err != astits.ErrNoMorePackets && errors.Is(it.Err, astits.ErrNoMorePackets) && run.WrappedEOF == "" {
+			run.WrappedEOF = fmt.Sprintf("call %d returned %q: errors.Is finds ErrNoMorePackets in it, it is not ErrNoMorePackets", it.Call, it.Err.Error())
+		}
+		if it.Err == astits.ErrNoMorePackets && it.Data == nil && it.Packet == nil {
 			if cfg.API == "alt" && usePacket {
 				// with mixed calls NextPacket runs dry first while NextData may still flush pending units:
 				// the end of the stream is the first ErrNoMorePackets of NextData
